@@ -232,6 +232,47 @@ harness!(
     leak(names);
 });
 
+harness!(
+    /// a reference to an earlier definition is followed through the name table: Ref "E" -> enum
+    /// {a,b,c}; all inputs of up to 2 bytes behave as for the enum itself.
+    ref_, unwind = 6, {
+    use apache_avro::schema::Name;
+    let data: [u8; 2] = any_bytes();
+    let len = any_usize();
+    assume(len <= 2);
+    let mut names = no_names();
+    names.insert(name("E"), crate::dec::enum3());
+    let schema = Schema::Ref { name: name("E") };
+    let want = match spec::dec_long(&[data[0], data[1], 0, 0, 0, 0, 0, 0, 0, 0], len) {
+        Some((w, used)) if w >= 0 && w < 3 => Some((w as u32, used)),
+        _ => None,
+    };
+    witness!(matches!(want, Some((2, _))), "last symbol through the reference");
+    match (run_dec(&schema, &names, data, len), want) {
+        (Some((v, used)), Some((idx, wused))) => {
+            assert!(matches!(&v, Value::Enum(i, _) if *i == idx), "value read through the reference differs");
+            assert!(used == wused, "consumed differs");
+            leak(v);
+        }
+        (Some((v, _)), None) => {
+            leak(v);
+            assert!(false, "Ok for an index outside the referenced enum's symbols or an incomplete datum");
+        }
+        (None, Some(_)) => assert!(false, "valid datum of the referenced schema rejected"),
+        (None, None) => {}
+    }
+    // an unknown reference is an error, never a value
+    let dangling = Schema::Ref { name: name("Nope") };
+    match run_dec(&dangling, &names, data, len) {
+        Some((v, _)) => {
+            leak(v);
+            assert!(false, "a dangling reference decoded to a value");
+        }
+        None => {}
+    }
+    leak(names);
+});
+
 pub const HARNESSES: &[(&str, fn())] = &[
     ("dec2::union_", union_::body),
     ("dec2::array_one_block", array_one_block::body),
@@ -241,4 +282,5 @@ pub const HARNESSES: &[(&str, fn())] = &[
     ("dec2::union_oob", union_oob::body),
     ("dec2::record_", record_::body),
     ("dec2::duration_", duration_::body),
+    ("dec2::ref_", ref_::body),
 ];
